@@ -64,6 +64,7 @@ type Contract struct {
 	Ensures    []Clause
 	Modifies   []Clause
 	NoPanic    bool
+	Wraps      bool // unsigned 64-bit + and - are computed modulo 2^64 (machine semantics) instead of being proved not to wrap
 	MayPanic   bool // run-time panics are not excluded: postconditions are about normal returns only
 	Rethrows   bool // a deferred panic handler: whenever its recover() yields a non-nil value it panics again (proved)
 	Panics     []PanicSpec
@@ -132,7 +133,7 @@ var reLemma = regexp.MustCompile(`^lemma\s+([A-Za-z_][A-Za-z0-9_]*)\s*\((.*)\)\s
 var rePred = regexp.MustCompile(`^(?:pred|fun)\s+([A-Za-z_][A-Za-z0-9_]*)\s*\((.*?)\)\s*(?:[A-Za-z_.\[\]*]+\s*)?:=\s*(.*)$`)
 
 func clauseKeyword(s string) bool {
-	for _, k := range []string{"property ", "requires ", "ensures ", "defines ", "modifies ", "no_panic", "may_panic", "rethrows", "panics_with ", "panics ", "decreases ", "loop#", "at ", "let ", "ghost ", "trusted", "inline", "noinline", "pure", "witness ", "assumes ", "dispatch ", "callback ", "reads_init "} {
+	for _, k := range []string{"property ", "requires ", "ensures ", "defines ", "modifies ", "no_panic", "may_panic", "wraps", "rethrows", "panics_with ", "panics ", "decreases ", "loop#", "at ", "let ", "ghost ", "trusted", "inline", "noinline", "pure", "witness ", "assumes ", "dispatch ", "callback ", "reads_init "} {
 		if strings.HasPrefix(s, k) {
 			return true
 		}
@@ -342,6 +343,8 @@ func (cs *ContractSet) parseFile(pkgPath, file string) error {
 			cur.NoPanic = true
 		case t == "rethrows":
 			cur.Rethrows = true
+		case t == "wraps":
+			cur.Wraps = true
 		case t == "may_panic":
 			cur.MayPanic = true
 			cur.Assumes = append(cur.Assumes, "partial correctness: run-time panics (nil dereference, index, slice bounds, conversion, division) are not excluded here; the postconditions are proved for every normal return")
